@@ -1,10 +1,11 @@
 (* C04 — mapping semantics and nested-key canonicalisation match a nested-dict model.
+   (Section 6: lazy stacks, Model/C04_Lazy.v.)
    Property theorems only: each is closed by [exact] of a lemma proved in Proofs/, followed by Print Assumptions
    (parsed by the harness on every run).  Model: Model/C04_{Tree,Ops,Views,Step}.v (+ Model/Keys.v);
    spec: Spec/C04_NestedDict.v (a plain python nested dict and the replay of a history on it). *)
 From Coq Require Import ZArith List String Bool Sorting.Permutation.
 Import ListNotations.
-From TD Require Import Model.Keys Proofs.KeysP Model.C04_Tree Model.C04_Ops Model.C04_Views Model.C04_Step
+From TD Require Import Model.Keys Proofs.KeysP Model.C04_Tree Model.C04_Ops Model.C04_Views Model.C04_Step Model.C04_Lazy Proofs.C04_LazyP
      Spec.C04_NestedDict Proofs.C04_AssocP Proofs.C04_CoreP Proofs.C04_RenameP Proofs.C04_UpdateP Proofs.C04_ViewsP Proofs.C04_FlattenP Proofs.C04_UnflattenP Proofs.C04_PrelimP Proofs.C04_SplitP
      Proofs.C04_HistP Proofs.C04_SpellP Proofs.C04_RefuteP.
 Open Scope string_scope.
@@ -232,6 +233,130 @@ Theorem C04_select_subkey_refuted :
     end.
 Proof. exact select_subkey_refuted. Qed.
 Print Assumptions C04_select_subkey_refuted.
+
+
+(* ------------------------------------------------------------------------------------------------------------
+   6. LAZY STACKS (Model/C04_Lazy.v): a stack is the list of its members; it denotes, member by member, the nested dicts
+   of its members restricted to the keys they all have; a value handed to it is unbound along the stack dimension.
+
+   6a. the stack's step IS its members' steps for set / __setitem__ / rename_key_ / select / exclude /
+   flatten_keys(inplace=True): either every member's own step (on its slice of the value) succeeds and the stack holds and
+   continues with exactly the members' results, or the stack raises the exception of the first member that raises. *)
+Theorem C04_lazy_step_delegates : forall ms o, ms <> [] -> delegating ms o ->
+  match lr_err (lz_step ms o) with
+  | None => lr_cont (lz_step ms o) = mapi_from (fun i m => sr_cont (step m (member_op i o))) 0 ms
+            /\ lr_self (lz_step ms o) = mapi_from (fun i m => sr_self (step m (member_op i o))) 0 ms
+            /\ members_ok ms o
+  | Some e => member_raises ms o e
+  end.
+Proof. exact lz_step_delegates. Qed.
+Print Assumptions C04_lazy_step_delegates.
+
+(* ... composed with C04_refine_step: member by member the stack refines the replay on the plain nested dict, with the
+   same outcome class (raises iff the replay of some member's share fails) *)
+Theorem C04_lazy_refine_step : forall ms o, ms <> [] -> delegating ms o -> Forall wfE ms ->
+  (forall i, exists so, abs_op (member_op i o) = Some so /\ in_scope (member_op i o)) ->
+  match lr_err (lz_step ms o) with
+  | None => forall i m, nth_error ms i = Some m ->
+              exists so r m', abs_op (member_op i o) = Some so /\ nd_step py_split (absE m) so = Some r
+                              /\ nth_error (lr_cont (lz_step ms o)) i = Some m' /\ absE m' = s_cont r
+  | Some _ => exists i m so, nth_error ms i = Some m /\ abs_op (member_op i o) = Some so
+                             /\ nd_step py_split (absE m) so = None
+  end.
+Proof. exact lazy_refine_step. Qed.
+Print Assumptions C04_lazy_refine_step.
+
+(* histories (any length): the history of the stack is every member's own history of its shares *)
+Theorem C04_lazy_history : forall ops ms, ms <> [] -> lz_ok ms ops ->
+  lz_run ms ops = mapi_from (fun i m => run m (map (member_op i) ops)) 0 ms.
+Proof. exact lazy_history. Qed.
+Print Assumptions C04_lazy_history.
+
+(* 6b. get stacks the members' entries, for every key path: a leaf result lists the members' own leaves, a nested
+   result is the lazy stack of the members' own nested nodes *)
+Theorem C04_lazy_get_members : forall p ms hd v, lz_get_tuple p ms hd = LGVal v ->
+  match v with
+  | LVLeaf vs => Forall2 (fun m w => get_tuple p m hd = GVal w /\ is_nodeb w = false) ms vs
+  | LVStack subs => Forall2 (fun m s => get_tuple p m hd = GVal (Node s)) ms subs
+  end.
+Proof. exact lz_get_members. Qed.
+Print Assumptions C04_lazy_get_members.
+
+(* 6c. key views: the keys of a stack are the keys common to all members, listed in sorted order; at the root `in`
+   agrees with iteration for every leaves_only / sort (D45), len counts what the view iterates (D44), values are the
+   values of the items, is_empty says the leaves-only nested view is empty *)
+Theorem C04_lazy_key_list : forall m0 r k,
+  (In k (lz_key_list (m0 :: r)) <-> (In k (map fst m0) /\ forall m, In m r -> amem k m = true))
+  /\ names_sorted (lz_key_list (m0 :: r)).
+Proof. intros. split; [apply lz_key_list_spec|apply lz_key_list_sorted]. Qed.
+Print Assumptions C04_lazy_key_list.
+
+Theorem C04_lazy_root_contains : forall inc lo so k ms l,
+  lz_keys_view false lo so ms = Ok l -> (lz_view_contains inc lo [k] ms = Ok true <-> In [k] l).
+Proof. exact lz_root_contains_iff_listed. Qed.
+Print Assumptions C04_lazy_root_contains.
+
+Theorem C04_lazy_len : forall inc lo so ms l,
+  lz_keys_view inc lo so ms = Ok l -> lz_len_view inc lo so ms = Ok (List.length l).
+Proof. exact lz_len_spec. Qed.
+Print Assumptions C04_lazy_len.
+
+Theorem C04_lazy_values : forall inc lo so ms,
+  lz_values_view inc lo so ms = match lz_items_view inc lo so ms with Ok l => Ok (map snd l) | Raise e => Raise e end.
+Proof. exact lz_values_spec. Qed.
+Print Assumptions C04_lazy_values.
+
+Theorem C04_lazy_is_empty : forall so ms l, lz_keys_view true true so ms = Ok l -> lz_is_empty ms = Ok (is_nilb l).
+Proof. exact lz_is_empty_spec. Qed.
+Print Assumptions C04_lazy_is_empty.
+
+(* D401 (known finding): with a nested node in the first member that another member lacks the stack denotes the empty
+   dict (items, `in`, get agree) but keys(include_nested=True), its len and is_empty raise KeyError; views without
+   include_nested never raise *)
+Theorem C04_lazy_keys_nested_refuted :
+  common_keys d401_stack = [] /\ lz_items_view true false false d401_stack = Ok []
+  /\ lz_td_contains (KS "x") d401_stack = Ok false /\ lz_get (KS "x") d401_stack = LGDef
+  /\ lz_keys_view true false false d401_stack = Raise EKey /\ lz_len_view true false false d401_stack = Raise EKey
+  /\ lz_is_empty d401_stack = Raise EKey.
+Proof. exact lazy_keys_nested_refuted. Qed.
+Print Assumptions C04_lazy_keys_nested_refuted.
+
+Theorem C04_lazy_keys_root_partial : forall lo so ms, exists l, lz_keys_view false lo so ms = Ok l.
+Proof. exact lazy_keys_root_partial. Qed.
+Print Assumptions C04_lazy_keys_root_partial.
+
+(* stated, not proved (checked by the correspondence and the oracle on every generated stack): when the nested keys view
+   does not raise it lists the paths of the items *)
+Definition C04_lazy_nested_keys_full_statement : Prop := forall lo so ms l its,
+  lz_keys_view true lo so ms = Ok l -> lz_items_view true lo so ms = Ok its -> Permutation l (map fst its).
+
+(* D47 (known finding): update() with prefix-related items is not the members' update (the input is merged into ONE
+   tensordict first); with a single string-keyed item it is *)
+Theorem C04_lazy_update_refuted :
+  fst (lz_update d47_items [[]]) = [[("a", Node [("c", Leaf LT 2%Z)])]]
+  /\ fst (update (map (fun kv => (fst kv, unbind1 0 (snd kv))) d47_items) [])
+     = [("a", Node [("b", Leaf LT 1%Z); ("c", Leaf LT 2%Z)])].
+Proof. exact lazy_update_refuted. Qed.
+Print Assumptions C04_lazy_update_refuted.
+
+Theorem C04_lazy_update_single_partial : forall s v ms,
+  lz_update [(KS s, v)] ms = lz_each (fun i m => update [(KS s, unbind1 i v)] m) 0 ms.
+Proof. exact lazy_update_single_partial. Qed.
+Print Assumptions C04_lazy_update_single_partial.
+
+(* non-vacuity: two members with different insertion orders and different leaf values; set through a re-spelled nested
+   key, rename into a nested node, out-of-place select continued with its result, flatten in place *)
+Example C04_ex_lazy_history :
+  ex_stack <> [] /\ lz_ok ex_stack ex_lops
+  /\ lz_run ex_stack ex_lops = [[("a.d", Leaf LT 7%Z); ("a.e", Leaf LT 1%Z)]; [("a.d", Leaf LT 8%Z); ("a.e", Leaf LT 6%Z)]]
+  /\ lz_keys_view true true false (lz_run ex_stack (firstn 3 ex_lops)) = Ok [["a"; "d"]; ["a"; "e"]]
+  /\ lz_get_tuple ["a"; "d"] (lz_run ex_stack (firstn 3 ex_lops)) true = LGVal (LVLeaf [Leaf LT 7%Z; Leaf LT 8%Z]).
+Proof. split; [discriminate|]. split; [vm_compute; tauto|]. repeat split. Qed.
+
+Example C04_ex_lazy_refine_scope : forall i, exists so,
+  abs_op (member_op i (LSet (KT [KS "a"; KT [KS "d"]]) (SLeaf [7%Z; 8%Z]))) = Some so
+  /\ in_scope (member_op i (LSet (KT [KS "a"; KT [KS "d"]]) (SLeaf [7%Z; 8%Z]))).
+Proof. intro i. eexists. split; [reflexivity|exact I]. Qed.
 
 (* ------------------------------------------------------------------------------------------------------------
    non-vacuity: a three-level tree with an empty nested node and a non-tensor leaf meets the hypotheses *)
